@@ -193,3 +193,74 @@ def r4(rr, repo):
             elif e.kind == 'store' and e.term.startswith('facet[') and '_histogram' not in e.term and 'raw_subject_data' not in e.term:
                 rr.ob('counter / gauge values are stored as int(...) / float(...)', e.args[0].startswith('int(') or e.args[0].startswith('float('), mod, e.node, witness=e.args[0][:60], key=f'scalar|{e.args[0][:12]}')
     rr.floor('histogram stores', n, 1, mod, fn)
+
+
+LN = 'openfilter/observability/lineage.py'
+
+
+def _mutable_default(node) -> bool:
+    return isinstance(node, (ast.Dict, ast.List, ast.Set)) or (isinstance(node, ast.Call) and U(node.func) in ('dict', 'list', 'set', 'defaultdict'))
+
+
+@rule('C16.R5', 'what the heartbeat sends is this emitter\'s last filtered facet and nothing else: the metric facets handed to update_heartbeat_lineage replace the stored ones, '
+                'and no emitter method accumulates entries in a dict that several emitters can share (a mutable default argument)')
+def r5(rr, repo):
+    mod, cls = repo.find(f'{LN}::OpenFilterLineage')
+    _, init = repo.find(f'{LN}::OpenFilterLineage.__init__')
+    _, upd = repo.find(f'{LN}::OpenFilterLineage.update_heartbeat_lineage')
+    a = init.args
+    pos = a.posonlyargs + a.args
+    defaults = dict(zip([x.arg for x in pos[len(pos) - len(a.defaults):]], a.defaults))
+    defaults.update({x.arg: d for x, d in zip(a.kwonlyargs, a.kw_defaults) if d is not None})
+    shared_params = {n for n, d in defaults.items() if _mutable_default(d)}
+    shared_attrs = set()
+    for n in ast.walk(init):
+        if isinstance(n, ast.Assign) and isinstance(n.value, ast.Name) and n.value.id in shared_params:
+            for t in n.targets:
+                if isinstance(t, ast.Attribute) and U(t.value) == 'self':
+                    shared_attrs.add(t.attr)
+    # the attribute the heartbeat event is built from
+    _, emit = repo.find(f'{LN}::OpenFilterLineage._emit_event')
+    hb = {x.attr for x in ast.walk(emit) if isinstance(x, ast.Attribute) and U(x.value) == 'self' and x.attr in {t.attr for n in ast.walk(upd) if isinstance(n, (ast.Assign, ast.AugAssign, ast.Expr)) for t in ast.walk(n) if isinstance(t, ast.Attribute) and U(t.value) == 'self'}}
+    params = {x.arg for x in upd.args.args + upd.args.kwonlyargs}
+    stores = [n for n in ast.walk(upd) if isinstance(n, ast.Assign) and isinstance(n.value, ast.Name) and n.value.id in params and
+              any(isinstance(t, ast.Attribute) and U(t.value) == 'self' and t.attr in hb for t in n.targets)]
+    facet_attrs = {t.attr for n in stores for t in n.targets if isinstance(t, ast.Attribute)}
+    merges = [n for n in ast.walk(upd) if isinstance(n, ast.Call) and isinstance(n.func, ast.Attribute) and n.func.attr == 'update' and U(n.func.value).startswith('self.') and
+              n.func.value.attr in hb and any(isinstance(x, ast.Name) and x.id in params for x in n.args)]
+    facet_attrs |= {n.func.value.attr for n in merges}
+    rr.floor('stores of the handed-over facets in update_heartbeat_lineage (replace or merge)', len(stores) + len(merges), 1, mod, upd)
+    n_sites = 0
+    for attr in sorted(shared_attrs | facet_attrs):
+        may_be_shared = attr in shared_attrs
+        for fn in [x for x in cls.body if isinstance(x, (ast.FunctionDef, ast.AsyncFunctionDef))]:
+            for n in ast.walk(fn):
+                site = None
+                if isinstance(n, ast.Call) and isinstance(n.func, ast.Attribute) and n.func.attr in ('update', 'setdefault', '__ior__', 'extend', 'append', 'add') and U(n.func.value) == f'self.{attr}':
+                    site = (n, f'self.{attr}.{n.func.attr}(...)', n.func.attr != 'setdefault' or not (n.args and isinstance(n.args[0], ast.Constant)))
+                elif isinstance(n, ast.AugAssign) and U(n.target) == f'self.{attr}':
+                    site = (n, f'self.{attr} {type(n.op).__name__}= ...', True)
+                elif isinstance(n, (ast.Assign, ast.AugAssign)):
+                    for t in (n.targets if isinstance(n, ast.Assign) else [n.target]):
+                        if isinstance(t, ast.Subscript) and U(t.value) == f'self.{attr}':
+                            site = (n, U(t), not isinstance(t.slice, ast.Constant))
+                if site is None:
+                    continue
+                n_sites += 1
+                node, what, bulk = site
+                if not bulk:
+                    rr.holds(f'in-place store of one fixed, non-metric key into self.{attr}', mod, node, witness=what, key=f'inplace-const|{qualname(fn)}|{what}')
+                elif may_be_shared:
+                    rr.violated(f'self.{attr} may be the default argument object shared by every emitter built without facets ({", ".join(sorted(shared_params))}={U(defaults[sorted(shared_params)[0]])}); '
+                                f'accumulating entries in it in place carries one emitter\'s exported metrics into the heartbeat of another emitter whose allow-list does not admit them',
+                                mod, node, witness=what, key=f'shared-accumulate|{qualname(fn)}|{what}')
+                else:
+                    rr.holds(f'in-place update of self.{attr}, which is never a shared default object', mod, node, witness=what, key=f'inplace-own|{qualname(fn)}|{what}')
+    rr.sites += n_sites
+    # the exporter hands the filtered facet over by keyword
+    bmod, exp = repo.find(f'{BR}::OTelLineageExporter.export')
+    calls = q.attr_calls(exp, 'update_heartbeat_lineage')
+    rr.floor('hand-over calls in the exporter', len(calls), 1, bmod, exp)
+    for c in calls:
+        kw = {k.arg: U(k.value) for k in c.keywords}
+        rr.ob('the exporter hands over the dict it filled under the allow-list test, nothing else', set(kw) <= {'facets'} and not c.args and 'facets' in kw, bmod, c, witness=U(c)[:120], key='handover')
